@@ -1,6 +1,7 @@
 package rules
 
 import (
+	"go/types"
 	"go/token"
 	"strings"
 
@@ -29,7 +30,7 @@ func checkC05(P *core.Program, R *core.Report) {
 			for _, a := range ff.At(c) {
 				if a.Rel == core.LT && ff.Fwd(a.A) == shareIn && a.B != nil {
 					for _, o := range ff.Origins(a.B) {
-						if o.Kind == "call" && strings.HasSuffix(o.Name, "x/amm/types.Pool.GetTotalShares") && o.Path == ".Amount" {
+						if strings.HasSuffix(o.Path, ".TotalShares.Amount") && isAmmPoolRecord(o) {
 							ltTotal = true
 						}
 					}
@@ -150,10 +151,23 @@ func checkC05(P *core.Program, R *core.Report) {
 					continue
 				}
 				if fa, ok := st.Addr.(*ssa.FieldAddr); ok && core.FieldName(fa.X.Type(), fa.Field) == "TotalShares" {
-					if nc, isC := ff.Fwd(st.Val).(*ssa.Call); isC && core.CalleeName(nc.Common()) == "NewCoin" {
-						if sa, _, ok := mathCall(ff, nc.Common().Args[1], "Sub"); ok && len(sa) == 2 && ff.Fwd(sa[1]) == ssa.Value(fn.Params[3]) {
-							sharesOK = true
+					// new TotalShares = old TotalShares − exitingShares, however it is written
+					p, okR := ff.PolyOf(st.Val).Rename(func(_ string, v ssa.Value) (string, bool) {
+						if v == nil {
+							return "", false
 						}
+						if ff.Fwd(v) == ssa.Value(fn.Params[3]) {
+							return "EXIT", true
+						}
+						if originsAll(ff, v, func(o core.Origin) bool {
+							return strings.HasSuffix(o.Path, ".TotalShares") || strings.HasSuffix(o.Path, ".TotalShares.Amount")
+						}) {
+							return "TOTAL", true
+						}
+						return "", false
+					})
+					if okR && p.Equal(core.ParsePoly("TOTAL - EXIT")) {
+						sharesOK = true
 					}
 				}
 			}
@@ -210,3 +224,17 @@ func lenOf(ff *core.FuncFacts, v ssa.Value) (ssa.Value, bool) {
 }
 
 var _ = token.ADD
+
+// isAmmPoolRecord: the origin is an amm pool record (a value of type ammtypes.Pool, however
+// it was obtained: parameter, GetPool result, local copy).
+func isAmmPoolRecord(o core.Origin) bool {
+	if o.Val == nil {
+		return false
+	}
+	t := o.Val.Type()
+	if tup, ok := t.(*types.Tuple); ok && tup.Len() > 0 {
+		t = tup.At(0).Type()
+	}
+	n := core.AsNamed(t)
+	return n != nil && n.Obj().Name() == "Pool" && n.Obj().Pkg() != nil && strings.HasSuffix(n.Obj().Pkg().Path(), "x/amm/types")
+}
